@@ -191,3 +191,49 @@ Qed.
 
 Lemma leg_example : RegistryOf leg_defs (label_at leg_labels) leg_reg /\ forall L, ~ RegistryOf1 leg_defs L leg_reg.
 Proof. exact (conj leg_RegistryOf leg_no_RegistryOf1). Qed.
+
+(** ** completeness of [types_equal] on a real registry with identity duplicates:
+    [a::Pt<T> { x: T, ys: Vec<T> }] (fragment [teq_program_okb]) at [Vec<Box<u16>>] and at [Vec<u16>]
+    - two instantiations with one [canon] form, registered separately by scale-info, as are
+    [Vec<Box<u16>>] / [Vec<u16>] and [Vec<Vec<Box<u16>>>] / [Vec<Vec<u16>>] *)
+Definition tq1_defs : list sdef :=
+  [mk_sdef ["a"; "Pt"] [("T", false)]
+           (SBStruct [mk_sfield (Some "x") (SParam 0) false true;
+                      mk_sfield (Some "ys") (SVec (SParam 0)) false true])].
+Definition tq1_sd : sdef := nth 0 tq1_defs pe_default.
+Definition tq1_pt (t ys : N) : ty :=
+  mk_ty ["a"; "Pt"] [mk_tparam "T" (Some t)] (TDComposite [id1_fld "x" t "T"; id1_fld "ys" ys "Vec<T>"]) [].
+Definition tq1_reg : registry :=
+  [(0, tq1_pt 1 3); (1, id1_seq 2); (2, mk_ty [] [] (TDPrimitive PU16) []); (3, id1_seq 1);
+   (4, tq1_pt 5 6); (5, id1_seq 2); (6, id1_seq 5)].
+Definition tq1_args1 : list src := [SVec (SBox (SPrimT PU16))].
+Definition tq1_args2 : list src := [SVec (SPrimT PU16)].
+Definition tq1_raw_labels : list (option src) :=
+  [Some (SApp 0 tq1_args1); Some (SVec (SBox (SPrimT PU16))); Some (SBox (SPrimT PU16));
+   Some (SVec (SVec (SBox (SPrimT PU16))));
+   Some (SApp 0 tq1_args2); Some (SVec (SPrimT PU16)); Some (SVec (SVec (SPrimT PU16)))].
+Definition tq1_labels : list (option src) := ident1_labels tq1_raw_labels.
+
+Lemma tq1_RegistryOf1 : RegistryOf1 tq1_defs (label_at tq1_labels) tq1_reg.
+Proof. apply registry_of1b_sound; vm_compute; reflexivity. Qed.
+
+Lemma tq1_facts :
+  labels_injectiveb (map (fun o => match o with Some c => Some (canon c) | None => None end) tq1_raw_labels) = false /\
+  nth_error tq1_defs 0 = Some tq1_sd /\ teq_program_okb tq1_sd = true /\
+  instantiation_cf1 tq1_defs tq1_sd tq1_args1 = true /\ instantiation_cf1 tq1_defs tq1_sd tq1_args2 = true /\
+  label_at tq1_labels 0 = Some (SApp 0 tq1_args1) /\ label_at tq1_labels 4 = Some (SApp 0 tq1_args2) /\
+  map canon tq1_args1 = map canon tq1_args2 /\
+  types_equal_res tq1_reg 0 4 = Ok true /\
+  is_ok (generate tq1_reg ex5_s (types_equal tq1_reg)) = true.
+Proof. repeat split; vm_compute; reflexivity. Qed.
+
+Lemma tq1_example :
+  RegistryOf1 tq1_defs (label_at tq1_labels) tq1_reg /\
+  labels_injectiveb (map (fun o => match o with Some c => Some (canon c) | None => None end) tq1_raw_labels) = false /\
+  nth_error tq1_defs 0 = Some tq1_sd /\ teq_program_okb tq1_sd = true /\
+  instantiation_cf1 tq1_defs tq1_sd tq1_args1 = true /\ instantiation_cf1 tq1_defs tq1_sd tq1_args2 = true /\
+  label_at tq1_labels 0 = Some (SApp 0 tq1_args1) /\ label_at tq1_labels 4 = Some (SApp 0 tq1_args2) /\
+  map canon tq1_args1 = map canon tq1_args2 /\
+  types_equal_res tq1_reg 0 4 = Ok true /\
+  is_ok (generate tq1_reg ex5_s (types_equal tq1_reg)) = true.
+Proof. exact (conj tq1_RegistryOf1 tq1_facts). Qed.
